@@ -69,12 +69,33 @@ def check(res, tier):
                               "the front end rejects a program the stated rules accept (%s): the correspondence of DDP.Spec.checkProgram is broken" % kind,
                               {"program": src, "mutation": kind, "implementation": r.as_dict(), "kind": "correspondence",
                                "theorem": "Props/C04.lean (all theorems are about DDP.Spec.checkProgram)"}, has_input=False)
+    # the same ill-formed programs through the command line with modules kept apart (--module-linken=false):
+    # another path through compiler.Compile, which has to refuse a faulty module just the same
+    nolink = pipeline.Config(opt=1, module_link=False)
+    rejected = [(k, s) for k, _, s, v in cases if v == "reject"]
+    if quick:
+        rejected = rejected[sd % 3::3]
+    outs2 = pipeline.farm_cli(ddp, [({"main.ddp": s}, nolink, {"compile_only": True}) for _, s in rejected])
+    for (kind, src), r in zip(rejected, outs2):
+        res.evaluations += 1
+        st["nolink:%s:kddp-%s" % (kind.split(":")[0], "accept" if r.cls == "ok" else r.cls)] += 1
+        if r.cls == "ok":
+            res.violation("accepted-illformed-nolink:%s:%s" % (kind.split(":")[0], hash(src) % 10 ** 8),
+                          "an ill-formed program (%s) compiles to an object file with exit status 0 under --module-linken=false" % kind,
+                          {"program": src, "expected": "rejected with an error diagnostic, no object file", "mutation": kind,
+                           "command": "kddp kompiliere main.ddp -o out.o -O 1 --module-linken=false", "implementation": r.as_dict()})
+        elif r.cls == "compile-internal-error":
+            res.violation("crash-nolink:%s:%s" % (kind.split(":")[0], hash(src) % 10 ** 8),
+                          "the compiler hands an ill-formed program (%s) to the code generator under --module-linken=false, which crashes" % kind,
+                          {"program": src, "expected": "rejected with an error diagnostic", "mutation": kind,
+                           "command": "kddp kompiliere main.ddp -o out.o -O 1 --module-linken=false", "implementation": r.as_dict()})
     evalcorr.report_broken(res, broken)
-    res.extra.update({"base_programs": len(base), "cases": len(cases), "verdict_matrix": dict(sorted(st.items()))})
+    res.extra.update({"base_programs": len(base), "cases": len(cases), "cases_also_without_module_linking": len(rejected), "verdict_matrix": dict(sorted(st.items()))})
     res.rule = ("random well-formed programs and, per program, mutants: a literal of another type at a random expression position "
                 "(operand, argument, initialiser, assigned value, condition, loop bound, repeat count, iterated value, returned value, "
                 "index, field value), an undeclared name, a name used after its block, a redeclaration in one scope, Verlasse/Fahre fort "
                 "outside loops, a missing final return; text-level: wrong article, Konstante assigned / compound-assigned / passed as "
                 "Referenz (also its elements and characters), return outside a function, non-Wahrheitswert condition: verdict of the "
-                "front end against the Lean statement of the rules, in both directions")
+                "front end against the Lean statement of the rules, in both directions; the rejected ones again through "
+                "`kddp kompiliere --module-linken=false` (no object file, no crash)")
     res.assumptions += ["use of non-public declarations of another module is covered by C10's negative programs"]
